@@ -9,7 +9,14 @@ open Irismod Irismod.Sdk Irismod.Farm Irismod.Spec
 theorem user_ne {a : Addr} (h : isModuleAcc a = false) : a ≠ farmAcc ∧ a ≠ collectorAcc ∧ a ≠ feesAcc := by
   unfold isModuleAcc at h
   simp only [Bool.or_eq_false_iff, decide_eq_false_iff_not] at h
-  exact ⟨h.1.1, h.1.2, h.2⟩
+  exact ⟨h.1.1.1.1.1, h.1.1.1.1.2, h.1.1.1.2⟩
+
+/-- a pool creator (a user account or the distribution module account) is none of the farm
+module's own accounts -/
+theorem creator_ne {a : Addr} (h : isModuleAcc a = false ∨ a = distrAcc) : a ≠ farmAcc ∧ a ≠ collectorAcc ∧ a ≠ feesAcc := by
+  rcases h with h | h
+  · exact user_ne h
+  · rw [h]; exact distr_ne
 
 theorem gap_congr {s s' : State} (hb : s'.bank = s.bank) (hp : s'.pools = s.pools) (d : Denom) : gap s' d = gap s d := by
   unfold gap C05.expectedFarm; rw [hb, hp]
